@@ -52,10 +52,18 @@ for nm in ['b', 'x1', 'b c', 'a.b', 'if', "q'", '9z', 'é', 'b-c']:
                     viol.append({'what': '%s of a path that runs through an existing leaf is accepted and changes another binding' % op, 'path': path, 'doc': base, 'text': out})
             except (KeyError, ValueError): pass
             except Exception as ex: viol.append({'what': '%s raises %s' % (op, type(ex).__name__), 'path': path, 'doc': base})
+# a malformed bare segment after a quoted one is refused like anywhere else
+for bad_path in ['"a"..b', '"a".', '"a".1x', '"a".b c', '"a b".', '"a".b..c', '"a"."b".-']:
+    n_eval += 1; kinds['malformed-after-quoted'] = kinds.get('malformed-after-quoted', 0) + 1
+    try:
+        out = set_value(source=parse('{ }'), npath=bad_path, value='1')
+        viol.append({'what': 'a malformed path after a quoted segment is accepted', 'path': bad_path, 'doc': '{ }', 'text': out})
+    except ValueError: pass
+    except Exception as ex: viol.append({'what': 'set raises %s' % type(ex).__name__, 'path': bad_path, 'doc': '{ }'})
 for i in range(N):
     names = [name() for _ in range(R.choice([1, 1, 1, 2, 3]))]
     doc = R.choice(DOCS)
-    for spelling in ('quoted', 'bare', 'raw'):
+    for spelling in ('quoted', 'bare', 'raw', 'mixed'):
         if spelling == 'raw':
             # a segment used verbatim: an identifier (possibly an existing name) plus a suffix; must be refused or read back exactly
             names = [R.choice(['x', 'v', 'ab', 'if', 'a_b']) + R.choice(['\n', ' ', '\t', '-', "'", '\r', '+', '\n\n', '$', '/', 'é', '²', 'ñb', '٣', 'ß']) for _ in names]
@@ -63,6 +71,11 @@ for i in range(N):
         elif spelling == 'bare':
             if not all(IDENT.match(n) for n in names): continue
             path = '.'.join(names)
+        elif spelling == 'mixed':
+            # seventh round: quoted and bare segments in one path (what one segment needed must not leak into the next)
+            if len(names) < 2: names = names + [R.choice(['b', 'x1', "q'", 'a_b'])]
+            if R.random() < 0.7: names = [R.choice(['x.y', 'b c', 'if', '9z', 'é'])] + [R.choice(['b', 'k1', "q'"]) for _ in names[1:]]
+            path = '.'.join(spell(n) for n in names)
         else:
             path = '.'.join(quote(n) for n in names)
         n_eval += 1
